@@ -3,7 +3,7 @@
    user), attached sessions belong to cached subscribers, and - except at the request pattern
    of finding banned-user-attached - to subscribers whose grant has J. *)
 From Coq Require Import ZArith NArith List Bool Lia.
-From Tinode Require Import Base.Util Pure.Acs Sys.Topic Sys.TopicTac Sys.TopicFrame Sys.TopicMarks Sys.TopicAcl Sys.TopicAclProofs.
+From Tinode Require Import Base.Util Pure.Acs Sys.Topic Sys.TopicTac Sys.TopicFrame Sys.TopicMarks Sys.TopicAclC07 Sys.TopicAclC07Proofs.
 Import ListNotations.
 Open Scope Z_scope.
 
